@@ -281,6 +281,18 @@ def set_iterations(repo: Repo, fi: FuncInfo, module_sets: set[str]):
     set-typed expression in fi."""
     names = set_typed_names(fi)
     is_set_expr = names.pop("__is_set_expr__")
+    # a nested function reads the sets of the functions around it (closure variables), unless it rebinds the name itself
+    own_bound = {n.id for x in walk_own(fi.node) for n in ast.walk(x) if isinstance(n, ast.Name) and isinstance(n.ctx, ast.Store)}
+    a0 = fi.node.args
+    own_bound |= {p_.arg for p_ in [*a0.posonlyargs, *a0.args, *a0.kwonlyargs]}
+    outer = fi.parent
+    while outer is not None:
+        on = set_typed_names(outer)
+        on.pop("__is_set_expr__", None)
+        for k_, v_ in on.items():
+            if k_ not in names and k_.rstrip("[]") not in own_bound:
+                names[k_] = v_
+        outer = outer.parent
 
     def is_set(v) -> bool:
         if is_set_expr(v):
